@@ -9,18 +9,18 @@ Local Open Scope list_scope.
 
 Inductive gstmt :=
 | GDec (owner : path) (name : string)          (* f.addDecorationFragment(n.owner, name, ..) *)
-| GTok (pos : path)                            (* f.addTokenFragment(n, tok, n.pos | NoPos) *)
+| GTok (tok : tokx) (pos : path)               (* f.addTokenFragment(n, tok, n.pos | NoPos) *)
 | GStr (v pos : path)
 | GBad (from : path)
 | GNode (p : path) (checked : bool)
 | GList (p : path)
-| GIf (cond : string) (body : list gstmt)
+| GIf (c : cond) (body : list gstmt)
 | GUnknown (src : string).
 
 Fixpoint frag_sk (s : gstmt) : list sk :=
   match s with
   | GDec o n => [SkDec o n]
-  | GTok p => opt_pos p ++ [SkTok]
+  | GTok _ p => opt_pos p ++ [SkTok]
   | GStr v p => opt_pos p ++ [SkStr v]
   | GBad f => opt_pos f ++ [SkBad ["Length"]]
   | GNode p _ => [SkNode p]
